@@ -34,11 +34,11 @@ pub const SUBS: &[SubDef] = &[
 ];
 
 fn run(ctx: &Ctx) {
-    ctx.run_tape("valid", valid, ctx.pick(8_000, 400_000), 600);
-    ctx.run_tape("negative", negative, ctx.pick(8_000, 300_000), 400);
-    ctx.run_tape("tail", tail, ctx.pick(6_000, 300_000), 500);
-    ctx.run_tape("differential", differential, ctx.pick(8_000, 400_000), 500);
-    ctx.run_tape("differential_raw", differential_raw, ctx.pick(10_000, 400_000), 96);
+    ctx.run_tape("valid", valid, ctx.pick(160_000, 400_000), 600);
+    ctx.run_tape("negative", negative, ctx.pick(150_000, 300_000), 400);
+    ctx.run_tape("tail", tail, ctx.pick(120_000, 300_000), 500);
+    ctx.run_tape("differential", differential, ctx.pick(160_000, 400_000), 500);
+    ctx.run_tape("differential_raw", differential_raw, ctx.pick(200_000, 400_000), 96);
 }
 
 #[derive(Debug, PartialEq, Clone)]
